@@ -181,42 +181,42 @@ func (a jsonMultiset) patch(pathBehind, pathAhead path, oldValues, newValues []J
 		return nil, fmt.Errorf(
 			"invalid path element %v: expected empty object", n)
 	}
-	aCounts := make(map[[8]byte]int)
-	aMap := make(map[[8]byte]JsonNode)
+	// Every copy of a value keeps its own node: repeating one node for
+	// all copies would make them share storage, and a later patch of one
+	// copy would change the others.
+	aNodes := make(map[[8]byte][]JsonNode)
 	for _, v := range a {
 		hc := v.hashCode(metadata)
-		aCounts[hc]++
-		aMap[hc] = v
+		aNodes[hc] = append(aNodes[hc], v)
 	}
+	missing := make(map[[8]byte]JsonNode)
 	for _, v := range oldValues {
 		hc := v.hashCode(metadata)
-		aCounts[hc]--
-		aMap[hc] = v
-	}
-	for hc, count := range aCounts {
-		if count < 0 {
-			return nil, fmt.Errorf(
-				"invalid diff: expected %v at %v but found nothing",
-				aMap[hc].Json(), pathBehind)
+		if nodes := aNodes[hc]; len(nodes) > 0 {
+			aNodes[hc] = nodes[:len(nodes)-1]
+		} else {
+			missing[hc] = v
 		}
+	}
+	for _, v := range missing {
+		return nil, fmt.Errorf(
+			"invalid diff: expected %v at %v but found nothing",
+			v.Json(), pathBehind)
 	}
 	for _, v := range newValues {
 		hc := v.hashCode(metadata)
-		aCounts[hc]++
-		aMap[hc] = v
+		aNodes[hc] = append(aNodes[hc], v)
 	}
 	aHashes := make(hashCodes, 0)
-	for hc := range aCounts {
-		if aCounts[hc] > 0 {
-			for i := 0; i < aCounts[hc]; i++ {
-				aHashes = append(aHashes, hc)
-			}
+	for hc := range aNodes {
+		if len(aNodes[hc]) > 0 {
+			aHashes = append(aHashes, hc)
 		}
 	}
 	sort.Sort(aHashes)
 	newValue := make(jsonMultiset, 0)
 	for _, hc := range aHashes {
-		newValue = append(newValue, aMap[hc])
+		newValue = append(newValue, aNodes[hc]...)
 	}
 	return newValue, nil
 }
